@@ -5,6 +5,10 @@ V = os.path.dirname(os.path.dirname(os.path.abspath(__file__)))
 ids = [json.loads(l)["id"] for l in open(os.path.join(V, "properties.jsonl"))]
 
 CHECKS = {
+ "C13": dict(cat="exploration", design="§4 C13",
+   technique="property-based testing: Hypothesis-generated container histories (model-based) against Python lists/dicts with identity",
+   text="Histories of up to 12 operations over int/str/nested/optional-element lists and str->int maps, their aliases and clones (every operation named in the statement, boundary indices -1/0/1/len-1/len/len+1, empty containers, self- and alias-join, logging and capturing callbacks) print every live container after each step; stdout and the point of failure for out-of-range indices/removals must equal the reference interpreter's. Exploration: histories are sampled.",
+   note="Reference interpreter trusted; keys()/values()/pairs() compared by length and membership only; join modelled as append-copy."),
  "C08": dict(cat="exploration", design="§4 C08",
    technique="property-based testing: Hypothesis-generated object histories (model-based) against a reference interpreter with an object heap",
    text="Three classes (scalar/list/optional/class-typed fields, constructor with parameters, getters, setters, op-assign on fields, methods calling methods, methods returning self/Self and constructing Self, a method taking another instance, same member names in two classes) are driven by random histories of up to 15 steps (construct, alias, method and chained calls, field read/write/op-assign, writes through a nested field, passing to a function, list storage, `is`, replacing a class-typed field); the `n` of every live object is printed after each step and stdout must equal the reference interpreter's. Exploration: the class shapes are a fixed family with randomised constants; histories are sampled.",
